@@ -16,6 +16,7 @@ operation sequence on a name table is ONE line:
   op <id> effprefixes P (ov (PLUGIN PFX)…) → effective prefixes of the 33 default plugins, sorted
   op <id> defaultplugins              → the model's table of (plugin, default prefix)
   op <id> imports (NAME PATH)…        → aliases returned by the import closures `,`-joined `|` final table
+  op <id> unvendor PATH               → derive.unvendor(PATH)
 
 Names travel as atoms in which every byte other than [A-Za-z0-9_] is written %XX (so invalid UTF-8
 produced by byte slicing is representable); the empty name is `%`.
@@ -382,6 +383,12 @@ def run (_s : DState) (name : String) (args : List SExp) : Option String :=
   | "defaultplugins" =>
     some ("model=" ++ ",".intercalate (defaultPlugins.map fun (n, p) => n ++ "=" ++ p))
   | "imports" => some (runImports args)
+  | "unvendor" =>
+    match args with
+    | [.atom a] => match unesc a with
+      | some n => some ("model=" ++ esc (unvendor n))
+      | none => some "bad-op"
+    | _ => some "bad-op"
   | _ => none
 
 end OpsGen
